@@ -51,7 +51,7 @@ def run_unit(name, tier, seed):
 
 def replay(c):
     if c['kind'] == 'hang':
-        return (True, 'exceeded 5 s again') if hist.hangs(c['cls'], c['witness']['ops']) else (False, 'finished within the limit')
+        return (True, 'exceeded 30 s again') if hist.hangs(c['cls'], c['witness']['ops']) else (False, 'finished within the limit')
     found = judge_concrete(c['cls'], c['witness']['ops'], c['witness'])
     for k, d in found:
         if k == c['kind']:
